@@ -19,7 +19,7 @@ LAYOUTS = {
     'd Month': lambda m, d: '%d %s' % (d, G.MONTHS['en'][m - 1]),
     'Month dth': lambda m, d: '%s %d%s' % (G.MONTHS['en'][m - 1], d, G.ordinal_suffix(d)),
 }
-CARRIERS = ['{}', '{}', 'I will be back on {}', 'the deadline is {} for all teams']
+CARRIERS = ['{}', '{}', 'I will be back on {}', 'the deadline is {} for all teams', '{}.', 'it is on {}, room 4.']
 
 
 def occurrences(m, d, ref_date):
@@ -133,14 +133,14 @@ def forced_enum(quick):
                 for r in forced_refs(m, d, y, times):
                     for layout in (sorted(LAYOUTS) if (m, d) in ((2, 29), (1, 1), (12, 31)) or not quick else [sorted(LAYOUTS)[i % 4]]):
                         i += 1
-                        yield {'kind': 'md', 'm': m, 'd': d, 'layout': layout, 'ref': r, 'carrier': CARRIERS[i % 4]}
+                        yield {'kind': 'md', 'm': m, 'd': d, 'layout': layout, 'ref': r, 'carrier': CARRIERS[i % 6]}
         base = dt.datetime(2019, 12, 26, 0, 0, 0)
         for off in range(14):
             for t in ((0, 0, 0), (18, 30, 0)):
                 r = (base + TD(days=off)).replace(hour=t[0], minute=t[1], second=t[2]).isoformat()
                 for wd in range(7):
                     i += 1
-                    yield {'kind': 'wd', 'wd': wd, 'cap': bool(i % 2), 'ref': r, 'carrier': CARRIERS[i % 4]}
+                    yield {'kind': 'wd', 'wd': wd, 'cap': bool(i % 2), 'ref': r, 'carrier': CARRIERS[i % 6]}
     return gen
 
 
@@ -159,9 +159,9 @@ def cases():
             ref = ref.replace(year=x.year, month=x.month, day=x.day)
         return {'kind': 'md', 'm': p[0], 'd': p[1], 'layout': layout, 'ref': ref.isoformat(), 'carrier': CARRIERS[ci]}
     mds = st.builds(md, st.one_of(st.sampled_from(pairs), st.sampled_from([(2, 29), (2, 28), (3, 1), (12, 31), (1, 1)])), st.sampled_from(sorted(LAYOUTS)),
-                    G.refs(), st.sampled_from([None, None, -1, 0, 0, 1]), st.integers(0, 3))
+                    G.refs(), st.sampled_from([None, None, -1, 0, 0, 1]), st.integers(0, 5))
     wds = st.builds(lambda w, cap, r, ci: {'kind': 'wd', 'wd': w, 'cap': cap, 'ref': r, 'carrier': CARRIERS[ci]}, st.integers(0, 6), st.booleans(),
-                    G.refs(), st.integers(0, 3))
+                    G.refs(), st.integers(0, 5))
     return st.one_of(mds, mds, wds)
 
 
